@@ -72,6 +72,9 @@ RULE = ("sessions = method (nat, nft, tproxy, pf on FreeBSD/OpenBSD/Darwin) x pl
         "boundaries and inside the wait loop; write / flush of STARTED failing; rewrite_etc_hosts failing at each HOST line and at restore; "
         "resolvectl / systemd-resolve absent, present, exiting non-zero, failing to start or to be waited for in the try block and in the "
         "finally block; UDP asked of nat / nft / pf; `auto` and explicit methods against PATHs with and without their programs) "
+        "x slow commands (the k-th external command of set-up / tear-down -- quick: every tear-down command and up to 24 per plan, thorough: every "
+        "k -- windows of consecutive commands, all commands, with cuts and with a failing command, takes longer than any timeout the code "
+        "passes to subprocess: every method; the stand-in raises subprocess.TimeoutExpired iff the code passed a timeout) "
         "x signals (real helper process: SIGHUP, SIGPIPE, SIGINT, SIGTERM and pairs of them before GO, at sampled / thorough: every command "
         "of set-up and tear-down, while waiting; the client dying at those moments with and without unread output, terminal hang-up, dead "
         "stderr; -v 0..2; setsid refused; with a failing command; the client's pid gone when the helper is signalled); "
@@ -85,6 +88,7 @@ TRUSTED_BASE = [
     "pf cannot be validated against a real kernel on this image (no BSD): pfctl -f replacing the main ruleset, kldunload discarding all pf state",
     "a foreign change while the session runs is ONE command of another tool applied to the kernel model at the moment the helper writes STARTED (appending/inserting a comment rule into a chain the session does not own); the model's session has no such event: the harness compares the session's own commands with the event-free model run and the final state with the model's final state plus that command",
     "harness, in-process runs: monkey-patched sshuttle.linux.ssubprocess / pf.ssubprocess (call, check_output, Popen: the real pf.pfctl runs) / firewall.ssubprocess (Popen + wait of the resolver-cache flush: the real flush_systemd_dns_cache runs) / pf.ioctl / pf.pf_get_dev / firewall.setup_daemon (scripted stdin and stdout, either of which can raise) / rewrite_etc_hosts (recorder that can raise) / helpers.which and the methods' `which` (a simulated PATH, silent: the real one logs at debug2; the real is_supported and get_auto_method run) / the name `os` in sshuttle.firewall (real module; _exit ends the simulated helper instead of the check); set-up/restore entry points wrapped to record phase marks; sys.stdout / sys.stderr replaced by recording streams that raise the injected exception",
+    "harness, the subprocess stand-in honours the keyword arguments the code passes: call / check_output / Popen(...).communicate(input, timeout) / Popen(...).wait take **kw; a command scripted as slow (World.slow: takes longer than ANY timeout) is killed without effect on the packet filter and subprocess.TimeoutExpired(argv, timeout) is raised if and only if a timeout was passed, otherwise it runs and answers as usual (time itself is not simulated: there is no clock, `slow` means `longer than whatever bound the code set`); env, stdin/stdout/stderr and every other keyword are recorded per API and tool in the evidence (subprocess_keyword_arguments) and compared with what linux.py / pf.py / firewall.py are read to pass (env=get_env() = PATH + LC_ALL=C, pipes for pfctl and the resolver flush, no timeout) -- a deviation is reported as a break of the correspondence; the content of PATH and the effect of LC_ALL on the tools' output are not simulated",
     "harness, signal runs (c04_sig.py): the helper is a forked child of the check running the REAL setup_daemon (signal dispositions, setsid) and firewall.main on a real socketpair (stdin/stdout) and a real pipe (stderr) with real sys.std* objects; before main runs the child restores the dispositions of a freshly started CPython (SIGINT -> KeyboardInterrupt, SIGTERM/SIGHUP default, SIGPIPE ignored BY THE INTERPRETER — so line firewall.py:106 cannot be told from its absence, as in a real helper); every external command is answered by the parent's kernel model over a pipe; the name `os` in sshuttle.firewall is a proxy that delivers kill() only if it is SIGINT for the check's own pid or aims at a pid above PID_MAX_LIMIT (the kernel then answers ESRCH: 'the client is gone') and records everything else without delivering it; the client is played by the check itself (it closes the channel when it receives the relayed SIGINT, as client.py's finally block does; it 'dies' by closing the channel, with SIGHUP to the helper for the terminal going away and by closing the read end of the stderr pipe); a signal 'at command k' is sent while the child is blocked waiting for the answer to its k-th command, which the kernel model then still executes",
     "Model/FwEnv.v (session_e): read errors, STARTED write failures, hosts-file failures and resolver-flush failures are OUTCOMES given to the model; which exception classes a socket / pipe / file really raises is not modelled (any class is allowed; `except IOError` = subclass of OSError)",
     "logging: a stream operation either succeeds or raises an instance of a built-in exception class (Model/FwLog.v lists Exception and 35 built-in classes below it; single inheritance, compared with issubclass on every pair; sshuttle's own Fatal is never raised by a stream); every sys.stdout.flush() on this code path is the first statement of a helpers.log call (used to delimit log calls); verbosity 3 (debug3) is not exercised",
@@ -331,6 +335,30 @@ class World:
         self.ops_started = None  # (counted, all) operations seen when STARTED was written
         self.anomaly = None
         self.unknown = []        # commands of this run the kernel model does not know (hex argv)
+        # slow commands: indices (the fault index: countable commands of this run) of commands that take longer than ANY
+        # timeout the code passes to subprocess (a foreign program holds the xtables lock, `iptables -w` waits): the
+        # stand-in then does what subprocess.call / check_output / Popen.communicate do -- the child is killed (no effect
+        # on the packet filter) and subprocess.TimeoutExpired is raised -- and NOT if the code passed no timeout (the
+        # command then is only late: it runs and answers as usual)
+        self.slow = set(self.env.get("slow") or [])
+        self.timeouts = []       # (index, argv text, the timeout the code passed) of every TimeoutExpired raised
+
+    def note_call(self, api, argv, kw):
+        """called by the subprocess stand-in before a command runs: records the keyword arguments the code passes
+        for this tool, and plays a slow command"""
+        record_kwargs(api, argv, kw)
+        if self.dead:
+            return
+        t = kw.get("timeout")
+        if self.n in self.slow and t is not None:
+            idx = self.n
+            self.n += 1
+            av = [a.encode() if isinstance(a, str) else a for a in argv]
+            self.trace.append("T:%s" % ".".join(hx(a) for a in av))
+            if self.snap is not None:
+                self.snap.append(self.k.get())
+            self.timeouts.append([idx, b" ".join(av).decode("latin-1"), t])
+            raise subprocess.TimeoutExpired(list(argv), t)
 
     def logop(self, kind, what):
         if kind == "out":
@@ -393,8 +421,9 @@ class FlushShim:
     def __init__(self, shim):
         self.shim = shim
 
-    def Popen(self, argv, stdout=None, env=None, **kw):
+    def Popen(self, argv, **kw):
         w = self.shim.world
+        record_kwargs("Popen+wait", argv, kw)
         phase = "teardown" if any(t.startswith("M:restore") for t in w.trace) else "setup"
         w.flush_log.append((phase, list(argv)))
         r = w.env.get("resolver") or {}
@@ -418,27 +447,81 @@ class SubprocessShim:
     def __init__(self):
         self.world = None
 
-    def call(self, argv, env=None, **kw):
+    TimeoutExpired = subprocess.TimeoutExpired
+    DEVNULL = subprocess.DEVNULL
+    STDOUT = subprocess.STDOUT
+
+    def _note(self, api, argv, kw):
+        """the keyword arguments are honoured as subprocess honours them: a timeout makes a slow command raise
+        TimeoutExpired (World.note_call); all of them are recorded per tool (KW_SEEN) and compared with KW_EXPECTED"""
+        note = getattr(self.world, "note_call", None)
+        if note is not None:
+            note(api, argv, kw)
+        else:
+            record_kwargs(api, argv, kw)
+
+    def call(self, argv, **kw):
+        self._note("call", argv, kw)
         return self.world.external(argv)[0]
 
-    def check_output(self, argv, env=None, **kw):
+    def check_output(self, argv, **kw):
+        self._note("check_output", argv, kw)
         rc, out, _ = self.world.external(argv)
         if rc:
             raise subprocess.CalledProcessError(rc, argv)
         return out
 
-    def Popen(self, argv, stdin=None, stdout=None, stderr=None, env=None, **kw):
+    def Popen(self, argv, **kw):
         """pf.pfctl (pf.py:387-402): Popen(...).communicate(stdin), .returncode"""
         shim = self
 
         class Proc:
             returncode = None
 
-            def communicate(self, data=None):
-                rc, out, err = shim.world.external(argv, data or b"")
+            def communicate(self, input=None, timeout=None):
+                shim._note("Popen+communicate", argv, dict(kw, **({"timeout": timeout} if timeout is not None else {})))
+                rc, out, err = shim.world.external(argv, input or b"")
                 self.returncode = rc
                 return (out, err)
         return Proc()
+
+
+# ---- which keyword arguments the code passes to subprocess, per API and tool (evidence; a change is a disagreement)
+KW_SEEN = {}        # "api tool" -> {canonical keyword text: number of commands}
+KW_EXPECTED = {     # read off linux.py:22,38,49 and pf.py:185,195,394-397: env=get_env() (PATH, LC_ALL=C), no timeout
+    "call": "env={LC_ALL=C,PATH}",
+    "check_output": "env={LC_ALL=C,PATH}",
+    "Popen+communicate": "env={LC_ALL=C,PATH} stderr=PIPE stdin=PIPE stdout=PIPE",
+    "Popen+wait": "env={LC_ALL=C,PATH} stdout=PIPE",        # firewall.py:185-191, the resolver-cache flush
+}
+
+
+def canon_kwargs(kw):
+    out = []
+    for k in sorted(kw):
+        v = kw[k]
+        if k == "env" and isinstance(v, dict):
+            t = "{" + ",".join(("%s=%s" % (n, v[n])) if n != "PATH" else "PATH" for n in sorted(v)) + "}"
+        elif v is subprocess.PIPE:
+            t = "PIPE"
+        elif v is subprocess.DEVNULL:
+            t = "DEVNULL"
+        elif v is subprocess.STDOUT:
+            t = "STDOUT"
+        elif v is None or isinstance(v, (int, float, str, bool)):
+            t = repr(v)
+        else:
+            t = type(v).__name__
+        out.append("%s=%s" % (k, t))
+    return " ".join(out)
+
+
+def record_kwargs(api, argv, kw):
+    tool = argv[0] if argv else ""
+    tool = tool.decode("latin-1") if isinstance(tool, bytes) else str(tool)
+    d = KW_SEEN.setdefault("%s %s" % (api, tool), {})
+    c = canon_kwargs(kw)
+    d[c] = d.get(c, 0) + 1
 
 
 _LOADED = {}
@@ -650,7 +733,8 @@ def run_real(kernel, method, state_enc, data, faults, snapshots=False, log=None,
             "snaps": w.snap, "py": py, "crash": crash, "nlog": w.calls, "log_fired": w.fired, "log_nfired": w.nfired,
             "log_ops": w.ops, "log_ops_all": w.ops_all, "ops_started": w.ops_started, "log_anomaly": w.anomaly,
             "log_fired_after_started": w.fired_after_started, "event_rc": w.event_rc,
-            "ready": w.ready, "flush_log": w.flush_log, "which_asked": w.which_asked, "unknown": w.unknown}
+            "ready": w.ready, "flush_log": w.flush_log, "which_asked": w.which_asked, "unknown": w.unknown,
+            "timeouts": w.timeouts}
 
 
 # ---------------------------------------------------------------- plans and dialogues
@@ -1057,6 +1141,7 @@ def _correspondence(ctx, rng, quick, kern):
     orng = random.Random("C04-odd-bytes-%d" % ctx.seed)   # free text / foreign events: own stream, same seed
     grng = random.Random("C04-environment-%d" % ctx.seed)  # environment outside the packet filter, signals: own stream
     pendingV = []         # (SESSIONE line, real observation, case info): runs compared with session_e (Model/FwEnv.v)
+    srng = random.Random("C04-slow-commands-%d" % ctx.seed)  # slow commands: own stream
 
     def one(plan, bodies, cut, faults, st_enc, kind, snapshots=False):
         real = run_real(kern, plan.method, st_enc, plan.data(cut), faults, snapshots)
@@ -1135,11 +1220,13 @@ def _correspondence(ctx, rng, quick, kern):
             if method in ("nat", "tproxy"):
                 event_dimension(ctx, orng, quick, kern, plan, bodies, st_enc, base, pendingE)
             env_dimension(ctx, grng, quick or pi >= 6, kern, plan, bodies, st_enc, base, pending, pendingV, pi)
+            slow_dimension(ctx, srng, quick or pi >= 6, kern, plan, bodies, st_enc, base, pending)
             if pi == 0 or (not quick and pi < 3):
                 c04_sig.signal_dimension(ctx, sys.modules[__name__], grng, quick, kern, plan, bodies, st_enc, base)
 
     log_correspondence(ctx)
     listing_correspondence(ctx, orng, quick, kern)
+    kwargs_evidence(ctx)
 
     # ---- model side in one batch
     lines = [p[0] for p in pending]
@@ -1274,6 +1361,11 @@ def env_note(env):
                                                      (", %s raises %s during %s" % (r["raise"][1], r["raise"][2], r["raise"][0])) if r.get("raise") else ""))
     if "programs" in env:
         out.append("PATH has only %s" % (", ".join(sorted(env["programs"])) or "nothing"))
+    if env.get("slow"):
+        out.append("external command(s) #%s of the session (counted from 0 over set-up and tear-down) take longer than any timeout "
+                   "the code passes to subprocess: with a timeout the stand-in kills the command (no effect) and raises "
+                   "subprocess.TimeoutExpired as subprocess does, without one the command is only late"
+                   % ",".join(str(k) for k in env["slow"]))
     return "; ".join(out)
 
 
@@ -1386,6 +1478,64 @@ def env_dimension(ctx, rng, quick, kern, plan, bodies, st_enc, base, pending, pe
                          {"plan": plan.desc(), "PATH": progs, "invoke": invoke or short},
                          {"outcome": real["outcome"], "ready": real["ready"], "commands": real["ncmds"]},
                          "Fatal before READY, no command issued")
+
+
+# ---------------------------------------------------------------- slow commands
+def slow_dimension(ctx, rng, quick, kern, plan, bodies, st_enc, base, pending):
+    """sessions of `plan` in which the k-th external command (every k of set-up and tear-down; windows of consecutive
+    commands; combined with cuts and with a failing command) takes longer than any timeout the code passes to subprocess
+    (another program holds the xtables lock and `iptables -w` waits; a wedged pfctl).  The stand-in honours the keyword
+    arguments as subprocess does: with a timeout the command is killed without effect and TimeoutExpired is raised,
+    without one it is only late.  The model has no notion of time: a late command is a command -- the runs are compared
+    with the model's session WITHOUT the slow script (same cut, same failing commands) and judged by the C04 oracles
+    (identity / nothing left diverting / a later session starts); a command the code gave up on counts as the single
+    failing command of the property text."""
+    nl, nh = len(plan.lines()), len(plan.header())
+    N, fin_at = base["ncmds"], base["fin_at"]
+    if not N:
+        return
+
+    def go(cut, faults, slow, kind):
+        env = {"slow": sorted(slow)}
+        real = run_real(kern, plan.method, st_enc, plan.data(cut), faults, env=env)
+        info = {"plan": plan.as_dict(), "cut": cut, "faults": sorted(faults), "state": st_enc, "kind": kind, "env": env}
+        pending.append((session_line(plan, bodies, cut, faults, st_enc, True), session_line(plan, bodies, cut, faults, st_enc, False),
+                        real, info))
+        ctx.count("slow_command_runs")
+        ctx.count(kind.replace("-", "_"))
+        if real["timeouts"]:
+            ctx.count("slow_command_runs_in_which_the_code_had_passed_a_timeout")
+        return real
+    cap = 24 if quick else N
+    ks = list(range(N))
+    if N > cap:
+        # every tear-down command (they are few) and a sample of the set-up
+        td = list(range(fin_at, N))[:cap]
+        ks = sorted(set(td + rng.sample(range(fin_at), max(0, cap - len(td))))) if fin_at else td
+    for k in ks:
+        go(nl, [], [k], "slow-teardown" if k >= fin_at else "slow-setup")
+    for _ in range(2 if quick else 8):
+        a = rng.randrange(N)
+        go(nl, [], range(a, min(N, a + rng.randint(2, 6))), "slow-window")        # the lock is held over several commands
+    go(nl, [], range(N + 8), "slow-all")
+    for _ in range(2 if quick else 8):
+        go(rng.randint(nh, nl), [], [rng.randrange(N)], "slow-with-cut")
+        k = rng.randrange(N)
+        go(nl, [rng.choice([x for x in range(N) if x != k] or [k])], [k], "slow-with-fault")
+
+
+def kwargs_evidence(ctx):
+    """which keyword arguments the code passed to subprocess for each tool in this run (evidence), and any deviation from
+    what linux.py / pf.py / firewall.py are read to pass (env=get_env(), pipes for pfctl, NO timeout: the model's
+    commands run to completion) as a disagreement"""
+    ctx.extra["subprocess_keyword_arguments"] = {k: dict(v) for k, v in sorted(KW_SEEN.items())}
+    for key, seen in sorted(KW_SEEN.items()):
+        api, tool = key.split(" ", 1)
+        want = KW_EXPECTED.get(api)
+        for c, n in sorted(seen.items()):
+            if c != want:
+                ctx.disagree("keyword arguments passed to subprocess.%s for `%s` (%d commands)" % (api, tool, n),
+                             {"api": api, "tool": tool}, c, want + " (nothing else: no timeout -- the model's commands run to completion)")
 
 
 # ---------------------------------------------------------------- the logging dimension
@@ -1826,6 +1976,33 @@ def report_unknown(ctx, plan, info, real):
 
 
 def oracle(ctx, kern, plan, info, real):
+    """the C04 oracles; a command killed by a timeout the code itself passed to subprocess (slow-command script, World.slow)
+    is for the property what any other failing command is: 'any single firewall command failing during set-up or
+    tear-down' still has every rule, chain, table or anchor content removed"""
+    tmo = real.get("timeouts") or []
+    if not tmo:
+        return _oracle(ctx, kern, plan, info, real)
+    before = len(ctx.violations)
+    extra = dict(info.get("rep_extra") or {}, faults=info["faults"], commands_killed_by_the_timeout_the_code_passed=tmo)
+    info2 = dict(info, faults=sorted(set(info["faults"]) | set(t[0] for t in tmo)), rep_extra=extra)
+    _oracle(ctx, kern, plan, info2, real)
+    own = own_names(plan)
+    left = diverting(dec_state(real["final"]), own)
+    for i in range(before, len(ctx.violations)):
+        what, rp = ctx.violations[i]
+        rp = dict(rp)
+        rp.pop("finding_id", None)        # not the recorded finding: the command did not fail, the code gave up on it
+        k, cmd, t = tmo[0]
+        phase = "tear-down" if k >= real["fin_at"] else "set-up"
+        what = ("slow command: %s command #%d `%s` took longer than the timeout=%r the code passed to subprocess; it was killed and "
+                "subprocess.TimeoutExpired was raised (not Fatal: nonfatal() and the Fatal handlers let it through; helper outcome %s%s), "
+                "%d further command(s) ran; result: %s%s"
+                % (phase, k, cmd, t, real["outcome"], (" " + real["crash"]) if real.get("crash") else "",
+                   real["ncmds"] - k - 1, what, ("; left over and still diverting: " + left) if left else ""))
+        ctx.violations[i] = (what, rp)
+
+
+def _oracle(ctx, kern, plan, info, real):
     report_unknown(ctx, plan, info, real)
     own = own_names(plan)
     # a foreign change while the session ran is part of "what the helper does not own": the reference state includes it
